@@ -303,3 +303,97 @@ impl<'de, R: Reader<'de>> Parser<R> {
         proof { lemma_uq_bounds(s, self.read.idx() as int, false); assert(false); }
 //@end
 }
+
+// ---- skip_number_unsafe (found F15): on a well-formed number in a well-formed context — after the literal come only
+// whitespace and then `,` `]` `}` or the end of input — it ends exactly where the validating skipper ends (the
+// literal's last byte), not at the next token.
+pub open spec fn is_num_char(c: u8) -> bool { is_digit(c) || c == 0x2d || c == 0x2b || c == 0x2e || c == 0x65 || c == 0x45 }
+pub open spec fn is_tok(c: u8) -> bool { c == 0x5d || c == 0x7d || c == 0x2c }
+pub proof fn lemma_digits_chars(s: Seq<u8>, i: int)
+    requires 0 <= i <= s.len(),
+    ensures forall|j: int| i <= j < digits_end(s, i) ==> is_num_char(#[trigger] s[j]),
+{
+    lemma_digits_end_bounds(s, i);
+}
+// every byte of a matched number literal is a number character
+pub proof fn lemma_number_chars(s: Seq<u8>, p: int)
+    requires 0 <= p <= s.len(), number_end(s, p).is_some(),
+    ensures forall|j: int| p <= j < number_end(s, p).unwrap() ==> is_num_char(#[trigger] s[j]),
+{
+    lemma_number_end_bounds(s, p);
+    let p1 = if at(s, p, 0x2d) { p + 1 } else { p };
+    lemma_digits_end_bounds(s, p1);
+    lemma_digits_chars(s, p1);
+    let p2 = if s[p1] == 0x30 { p1 + 1 } else { digits_end(s, p1) };
+    // after the integer part: optional fraction, optional exponent
+    if at(s, p2, 0x2e) {
+        lemma_digits_end_bounds(s, p2 + 1); lemma_digits_chars(s, p2 + 1);
+        let p3 = digits_end(s, p2 + 1);
+        if at(s, p3, 0x65) || at(s, p3, 0x45) {
+            let q1 = if at(s, p3 + 1, 0x2d) || at(s, p3 + 1, 0x2b) { p3 + 2 } else { p3 + 1 };
+            lemma_digits_end_bounds(s, q1); lemma_digits_chars(s, q1);
+        }
+    } else if at(s, p2, 0x65) || at(s, p2, 0x45) {
+        let q1 = if at(s, p2 + 1, 0x2d) || at(s, p2 + 1, 0x2b) { p2 + 2 } else { p2 + 1 };
+        lemma_digits_end_bounds(s, q1); lemma_digits_chars(s, q1);
+    }
+}
+
+impl<'de, R: Reader<'de>> Parser<R> {
+    // SIMD token search: contract assumed here; its block/tail agreement is the bounded Kani twin
+    // get_next_token_block_edge (thorough tier)
+    #[verifier::external_body]
+    pub fn get_next_token<const N: usize>(&mut self, tokens: [u8; N], advance: usize) -> (res: Option<u8>)
+        requires old(self).pinv(), advance <= 1,
+        ensures final(self).pinv(), final(self).same_doc(old(self)), final(self).same_cache(old(self)),
+            ({
+                let s = old(self).read.data();
+                let i = old(self).read.idx() as int;
+                match res {
+                    Some(ch) => exists|q: int| i <= q < s.len() && s[q] == ch && tokens@.contains(ch)
+                        && (forall|j: int| i <= j < q ==> !tokens@.contains(#[trigger] s[j]))
+                        && final(self).read.idx() == q + advance,
+                    None => final(self).read.idx() == s.len() && (forall|j: int| i <= j < s.len() ==> !tokens@.contains(#[trigger] s[j])),
+                }
+            }),
+    { unimplemented!() }
+
+//@extract file=src/parser.rs impl="Parser<R>" fn=skip_number_unsafe
+//@attr
+    #[verifier::loop_isolation(false)]
+//@sig
+        requires old(self).pinv(), old(self).read.idx() >= 1,
+            number_end(old(self).read.data(), old(self).read.idx() - 1).is_some(),
+            ({
+                let s = old(self).read.data();
+                let q = ws_end(s, number_end(s, old(self).read.idx() - 1).unwrap());
+                q >= s.len() || is_tok(s[q])
+            }),
+        ensures final(self).pinv(), final(self).same_doc(old(self)), res.is_ok(),
+            final(self).read.idx() == number_end(old(self).read.data(), old(self).read.idx() - 1).unwrap(),
+//@before /let _ = self\.get_next_token/
+        let ghost s = self.read.data();
+        let ghost p = self.read.idx() as int - 1;
+        let ghost e = number_end(s, p).unwrap();
+        let ghost q0 = ws_end(s, e);
+        proof {
+            lemma_number_end_bounds(s, p);
+            lemma_number_chars(s, p);
+            lemma_ws_end_bounds(s, e);
+            assert forall|j: int| p <= j < q0 implies !seq![0x5du8, 0x7du8, 0x2cu8].contains(#[trigger] s[j]) by {
+                if j < e { assert(is_num_char(s[j])); } else { assert(is_ws(s[j])); }
+            }
+        }
+//@after /let _ = self\.get_next_token/
+        proof {
+            let toks = seq![0x5du8, 0x7du8, 0x2cu8];
+            assert([0x5du8, 0x7du8, 0x2cu8]@ =~= toks);
+            assert(toks[0] == 0x5d && toks[1] == 0x7d && toks[2] == 0x2c);
+            if q0 < s.len() { assert(toks.contains(s[q0])); }
+            assert(self.read.idx() == q0);
+        }
+//@loop? 1
+            invariant self.pinv(), self.same_doc(old(self)), self.same_cache(old(self)), e <= self.read.idx() <= q0, 1 <= self.read.idx(),
+            decreases self.read.idx(),
+//@end
+}
